@@ -1,2 +1,1157 @@
-// stub created by the lead so that the workspace always loads; replace it with the check
-fn main() {}
+//! C18 — a lookup through the name-server pool succeeds if any configured server can answer,
+//! within the deadline.
+//!
+//! Seam: the real `NameServerPool` / `NameServer` over a scripted `ConnectionProvider` (`net.rs`)
+//! under tokio's paused clock; the pool's hooked `Instant::now()` call sites read the same
+//! virtual clock and the random initial SRTT is pinned (`verif_set_srtt`).
+//!
+//! Families (all exhaustive over their declared space):
+//!  (i)   coarse product (E-ENUM): n in 1..4 servers x behaviour per server x strategy x
+//!        num_concurrent_reqs x TCP availability x trust_negative_responses;
+//!  (ii)  refinement (E-SCHED): every schedule with <= d deviations from "every exchange is
+//!        answered fast", the deviation alphabet holding latency classes, fault kinds, busy runs,
+//!        TCP connect faults and out-of-class responses;
+//!  (iii) callers (E-ENUM over plans): k in {2,3} identical callers + one different query, arrival
+//!        and single-cancellation instants taken from the event instants of the scenario.
+//!
+//! Oracle: see `judge_single` / `judge_callers`; the reference pool walk is `refwalk.rs`.
+
+mod net;
+mod refwalk;
+
+use std::collections::BTreeSet;
+use std::sync::Arc;
+use std::time::Duration;
+
+use futures_util::StreamExt;
+use hickory_net::xfer::DnsHandle;
+use hickory_net::{DnsError, NetError};
+use hickory_proto::op::{DnsRequest, DnsRequestOptions, DnsResponse, Message, Query, ResponseCode};
+use hickory_proto::rr::{RData, RecordType};
+use hickory_resolver::config::{NameServerConfig, ResolverOpts, ServerOrderingStrategy};
+use hickory_resolver::{NameServer, NameServerPool, PoolContext, TlsConfig};
+use net::{fast, qname, server_ip, ConnStep, Ev, Net, Script, Srv, Step, TAG_MAIN, TAG_OTHER, TAG_WARM};
+use serde_json::{json, Value};
+use vcore::{fnv_str, Chooser, Ctx, Local, Odometer};
+
+/// `ResolverOpts::timeout` of every case (virtual milliseconds).
+const T_MS: u64 = 1000;
+/// The 0.6 T latency class.
+const SLOW: u64 = 600;
+/// Virtual-time horizon after which a caller counts as never completing.
+const HORIZON_MS: u64 = 60_000;
+
+// ------------------------------------------------------------------------------------------
+// case description
+
+#[derive(Clone, Debug, PartialEq, Eq)]
+struct CallerPlan {
+    tag: u8,
+    arrive: u64,
+    cancel: Option<u64>,
+}
+
+#[derive(Clone, Debug, PartialEq, Eq)]
+struct Case {
+    family: String,
+    servers: Vec<Srv>,
+    /// "user" | "roundrobin" | "querystats"
+    strategy: String,
+    /// lookups of another name performed before the measured one (advances the round-robin
+    /// counter, leaves established connections behind)
+    warmups: usize,
+    conc: usize,
+    callers: Vec<CallerPlan>,
+    followup: bool,
+}
+
+impl Case {
+    fn to_json(&self) -> Value {
+        json!({
+            "family": self.family,
+            "timeout_ms": T_MS,
+            "servers": self.servers.iter().map(|s| s.to_json()).collect::<Vec<_>>(),
+            "strategy": self.strategy,
+            "warmups": self.warmups,
+            "num_concurrent_reqs": self.conc,
+            "callers": self.callers.iter().map(|c| json!({"tag": c.tag, "arrive": c.arrive, "cancel": c.cancel})).collect::<Vec<_>>(),
+            "followup": self.followup,
+        })
+    }
+    fn from_json(v: &Value) -> Case {
+        Case {
+            family: v["family"].as_str().unwrap_or("coarse").to_string(),
+            servers: v["servers"].as_array().unwrap().iter().map(Srv::from_json).collect(),
+            strategy: v["strategy"].as_str().unwrap_or("user").to_string(),
+            warmups: v["warmups"].as_u64().unwrap_or(0) as usize,
+            conc: v["num_concurrent_reqs"].as_u64().unwrap_or(1) as usize,
+            callers: v["callers"]
+                .as_array()
+                .unwrap()
+                .iter()
+                .map(|c| CallerPlan {
+                    tag: c["tag"].as_u64().unwrap_or(0) as u8,
+                    arrive: c["arrive"].as_u64().unwrap_or(0),
+                    cancel: c["cancel"].as_u64(),
+                })
+                .collect(),
+            followup: v["followup"].as_bool().unwrap_or(false),
+        }
+    }
+    fn single(family: &str, servers: Vec<Srv>, strategy: &str, warmups: usize, conc: usize) -> Case {
+        Case {
+            family: family.to_string(),
+            servers,
+            strategy: strategy.to_string(),
+            warmups,
+            conc,
+            callers: vec![CallerPlan { tag: TAG_MAIN, arrive: 0, cancel: None }],
+            followup: false,
+        }
+    }
+}
+
+// ------------------------------------------------------------------------------------------
+// observations
+
+#[derive(Clone, Debug, PartialEq, Eq)]
+enum Res {
+    /// an answer record of the scripted network: which endpoint produced it, for which query tag
+    Answer { srv: usize, tcp: bool, tag: u8, tc: bool },
+    /// an Ok response without a scripted answer record
+    OkEmpty { tc: bool, rcode: String },
+    Nx { srv: Option<usize> },
+    NoData { srv: Option<usize> },
+    Timeout,
+    Io,
+    Busy,
+    NoConn,
+    Rcode(String),
+    CaseMismatch,
+    Other(String),
+}
+
+impl Res {
+    fn class(&self) -> String {
+        match self {
+            Res::Answer { tc: false, .. } => "answer".into(),
+            Res::Answer { tc: true, .. } => "answer-with-tc".into(),
+            Res::OkEmpty { tc: true, .. } => "truncated".into(),
+            Res::OkEmpty { tc: false, rcode } => format!("ok-empty-{rcode}"),
+            Res::Nx { .. } => "nxdomain".into(),
+            Res::NoData { .. } => "nodata".into(),
+            Res::Timeout => "timeout".into(),
+            Res::Io => "io-error".into(),
+            Res::Busy => "busy".into(),
+            Res::NoConn => "no-connections".into(),
+            Res::Rcode(c) => format!("rcode-{c}"),
+            Res::CaseMismatch => "case-mismatch".into(),
+            Res::Other(m) => format!("other-error({})", m.replace(' ', "-")),
+        }
+    }
+}
+
+fn classify(r: Option<Result<DnsResponse, NetError>>) -> Res {
+    fn soa_srv(nr: &hickory_net::NoRecords) -> Option<usize> {
+        let soa = nr.soa.as_ref()?;
+        let m = soa.data.mname.to_ascii();
+        m.strip_prefix('s')?.split('.').next()?.parse::<usize>().ok()
+    }
+    match r {
+        None => Res::Other("response stream ended without an item".into()),
+        Some(Ok(resp)) => {
+            let tc = resp.truncation;
+            for rec in &resp.answers {
+                if let RData::A(a) = &rec.data {
+                    let o = a.0.octets();
+                    if o[0] == 10 && o[3] >= 1 {
+                        return Res::Answer { srv: o[3] as usize - 1, tcp: o[1] == 1, tag: o[2], tc };
+                    }
+                }
+            }
+            Res::OkEmpty { tc, rcode: format!("{:?}", resp.response_code).to_lowercase() }
+        }
+        Some(Err(e)) => match e {
+            NetError::Timeout => Res::Timeout,
+            NetError::Io(_) => Res::Io,
+            NetError::Busy => Res::Busy,
+            NetError::NoConnections => Res::NoConn,
+            NetError::QueryCaseMismatch => Res::CaseMismatch,
+            NetError::Dns(DnsError::NoRecordsFound(nr)) => {
+                if nr.response_code == ResponseCode::NXDomain {
+                    Res::Nx { srv: soa_srv(&nr) }
+                } else {
+                    Res::NoData { srv: soa_srv(&nr) }
+                }
+            }
+            NetError::Dns(DnsError::ResponseCode(c)) => Res::Rcode(format!("{c:?}").to_lowercase()),
+            other => Res::Other(other.to_string()),
+        },
+    }
+}
+
+#[derive(Clone, Debug, PartialEq, Eq)]
+struct CallerObs {
+    start: u64,
+    end: Option<u64>,
+    res: Option<Res>,
+    cancelled: bool,
+    panicked: Option<String>,
+}
+
+#[derive(Clone, Debug, PartialEq, Eq)]
+struct Obs {
+    callers: Vec<CallerObs>,
+    followup: Option<CallerObs>,
+    log: Vec<Ev>,
+    servers: Vec<Srv>,
+    hung: bool,
+}
+
+impl Obs {
+    fn digest(&self) -> u64 {
+        fnv_str(&format!("{:?}", self))
+    }
+    fn to_json(&self) -> Value {
+        let c = |c: &CallerObs| json!({"start": c.start, "end": c.end, "result": c.res.as_ref().map(|r| format!("{r:?}")), "cancelled": c.cancelled, "panicked": c.panicked});
+        json!({
+            "callers": self.callers.iter().map(c).collect::<Vec<_>>(),
+            "followup": self.followup.as_ref().map(c),
+            "log": self.log.iter().map(|e| e.to_json()).collect::<Vec<_>>(),
+            "hung": self.hung,
+        })
+    }
+}
+
+#[derive(Clone, Default)]
+struct Alphabets {
+    udp: Vec<Step>,
+    tcp: Vec<Step>,
+    conn: Vec<ConnStep>,
+}
+
+/// Owner id (request message id) of caller `j`.
+fn owner_id(j: usize) -> u16 {
+    j as u16 + 1
+}
+const FOLLOWUP_OWNER: u16 = 900;
+const WARM_OWNER: u16 = 800;
+
+async fn one_lookup(pool: NameServerPool<Net>, net: Net, tag: u8, owner: u16) -> (u64, u64, Res) {
+    let start = net.ms();
+    let mut msg = Message::query();
+    msg.metadata.id = owner;
+    msg.add_query(Query::new(qname(tag), RecordType::A));
+    let req = DnsRequest::new(msg, DnsRequestOptions::default());
+    let r = pool.send(req).next().await;
+    let end = net.ms();
+    (start, end, classify(r))
+}
+
+/// Execute one case on the real pool. Deterministic function of (case, chooser prefix).
+fn execute(case: &Case, chooser: Option<Chooser>, alph: &Alphabets) -> (Obs, Option<Chooser>) {
+    vsim::install_hook_clock_tokio();
+    let rt = vsim::rt();
+    let out = rt.block_on(async {
+        let net = Net::new(case.servers.clone(), T_MS, chooser);
+        {
+            let mut st = net.inner.state.lock().unwrap();
+            st.udp_alphabet = alph.udp.clone();
+            st.tcp_alphabet = alph.tcp.clone();
+            st.conn_alphabet = alph.conn.clone();
+        }
+        let mut opts = ResolverOpts::default();
+        opts.timeout = Duration::from_millis(T_MS);
+        opts.num_concurrent_reqs = case.conc;
+        opts.server_ordering_strategy = match case.strategy.as_str() {
+            "user" => ServerOrderingStrategy::UserProvidedOrder,
+            "roundrobin" => ServerOrderingStrategy::RoundRobin,
+            _ => ServerOrderingStrategy::QueryStatistics,
+        };
+        opts.case_randomization = false;
+        let cx = Arc::new(PoolContext::new(opts.clone(), TlsConfig::new().unwrap()));
+        let nss = case
+            .servers
+            .iter()
+            .enumerate()
+            .map(|(i, s)| {
+                let mut cfg = if s.tcp.is_some() { NameServerConfig::udp_and_tcp(server_ip(i)) } else { NameServerConfig::udp(server_ip(i)) };
+                cfg.trust_negative_responses = s.trust_nx;
+                let ns = NameServer::new([], cfg, &opts, net.clone());
+                ns.verif_set_srtt(s.srtt);
+                Arc::new(ns)
+            })
+            .collect();
+        let pool = NameServerPool::from_nameservers(nss, cx);
+
+        for _ in 0..case.warmups {
+            let _ = one_lookup(pool.clone(), net.clone(), TAG_WARM, WARM_OWNER).await;
+            tokio::time::sleep(Duration::from_millis(3)).await;
+        }
+        net.rebase();
+        let base = tokio::time::Instant::now();
+
+        // actions in time order; at equal instants arrivals come first, in caller order
+        let mut actions: Vec<(u64, u8, usize)> = vec![];
+        for (j, c) in case.callers.iter().enumerate() {
+            actions.push((c.arrive, 0, j));
+            if let Some(x) = c.cancel {
+                actions.push((x, 1, j));
+            }
+        }
+        actions.sort();
+        let mut handles: Vec<Option<tokio::task::JoinHandle<(u64, u64, Res)>>> = case.callers.iter().map(|_| None).collect();
+        for (t, kind, j) in actions {
+            tokio::time::sleep_until(base + Duration::from_millis(t)).await;
+            if kind == 0 {
+                handles[j] = Some(tokio::spawn(one_lookup(pool.clone(), net.clone(), case.callers[j].tag, owner_id(j))));
+            } else if let Some(h) = &handles[j] {
+                h.abort();
+            }
+        }
+        let mut hung = false;
+        let mut callers = vec![];
+        let horizon = base + Duration::from_millis(HORIZON_MS);
+        for (j, h) in handles.into_iter().enumerate() {
+            let h = h.unwrap();
+            let plan = &case.callers[j];
+            match tokio::time::timeout_at(horizon, h).await {
+                Err(_) => {
+                    hung = true;
+                    callers.push(CallerObs { start: plan.arrive, end: None, res: None, cancelled: false, panicked: None });
+                }
+                Ok(Ok((start, end, res))) => callers.push(CallerObs { start, end: Some(end), res: Some(res), cancelled: false, panicked: None }),
+                Ok(Err(e)) if e.is_cancelled() => callers.push(CallerObs { start: plan.arrive, end: None, res: None, cancelled: true, panicked: None }),
+                Ok(Err(_)) => {
+                    let p = vcore::take_last_panic().map(|p| format!("{} @ {}", p.msg, vcore::short_loc(&p.loc))).unwrap_or_else(|| "?".into());
+                    callers.push(CallerObs { start: plan.arrive, end: None, res: None, cancelled: false, panicked: Some(p) });
+                }
+            }
+        }
+        let mut followup = None;
+        if case.followup && !hung {
+            tokio::time::sleep(Duration::from_millis(7)).await;
+            let h = tokio::spawn(one_lookup(pool.clone(), net.clone(), TAG_MAIN, FOLLOWUP_OWNER));
+            let start = net.ms();
+            let horizon = tokio::time::Instant::now() + Duration::from_millis(HORIZON_MS);
+            followup = Some(match tokio::time::timeout_at(horizon, h).await {
+                Err(_) => {
+                    hung = true;
+                    CallerObs { start, end: None, res: None, cancelled: false, panicked: None }
+                }
+                Ok(Ok((start, end, res))) => CallerObs { start, end: Some(end), res: Some(res), cancelled: false, panicked: None },
+                Ok(Err(_)) => {
+                    let p = vcore::take_last_panic().map(|p| format!("{} @ {}", p.msg, vcore::short_loc(&p.loc))).unwrap_or_else(|| "?".into());
+                    CallerObs { start, end: None, res: None, cancelled: false, panicked: Some(p) }
+                }
+            });
+        }
+        let obs = Obs { callers, followup, log: net.log(), servers: net.servers(), hung };
+        (obs, net.take_chooser())
+    });
+    drop(rt);
+    out
+}
+
+// ------------------------------------------------------------------------------------------
+// oracle
+
+fn is_definitive(res: &Res, servers: &[Srv]) -> bool {
+    match res {
+        Res::Answer { tc: false, .. } => true,
+        Res::NoData { .. } => true,
+        Res::Nx { srv: Some(s) } => servers.get(*s).map(|x| x.trust_nx).unwrap_or(false),
+        _ => false,
+    }
+}
+
+/// Abstract fault scene of a run: the kinds of upstream reactions the lookup met (sorted set).
+fn fault_scene(log: &[Ev], owner: u16) -> String {
+    let mut kinds: BTreeSet<String> = BTreeSet::new();
+    for e in log {
+        if e.connect {
+            if e.step != "ok" {
+                kinds.insert(format!("tcp-connect-{}", e.step.split(':').next().unwrap()));
+            }
+        } else if e.owner == owner {
+            let k = e.step.split(':').next().unwrap();
+            kinds.insert(if e.tcp { format!("tcp-{k}") } else { k.to_string() });
+        }
+    }
+    kinds.into_iter().collect::<Vec<_>>().join("+")
+}
+
+/// Clauses that concern one completed caller: deadline, soundness of the result.
+/// `inst_start` is the arrival of the caller that created the lookup this caller shares.
+fn judge_caller(case: &Case, obs: &Obs, j: usize, c: &CallerObs, owner: u16, tag: u8, l: &mut Local, wit: &dyn Fn() -> Value) {
+    let _ = j;
+    if let Some(p) = &c.panicked {
+        let loc = p.rsplit(" @ ").next().unwrap_or("?");
+        l.violation(&format!("panic:{loc}"), &format!("a caller task panicked: {p}"), wit);
+        return;
+    }
+    if c.cancelled {
+        return;
+    }
+    let (Some(end), Some(res)) = (c.end, c.res.as_ref()) else {
+        l.violation("no-completion", "a lookup did not complete within 60 s of virtual time", wit);
+        return;
+    };
+    // (1) deadline
+    let dur = end - c.start;
+    if dur > T_MS {
+        let deadline = c.start + T_MS;
+        let mine = |e: &&Ev| !e.connect && e.tag == tag && (e.owner == owner || tag == TAG_MAIN);
+        let started_late = obs.log.iter().filter(mine).any(|e| e.start >= deadline && e.start <= end);
+        let in_flight = obs.log.iter().filter(|e| e.tag == tag || e.connect).any(|e| e.start < deadline && e.end.map(|x| x > deadline).unwrap_or(true) && e.start <= end);
+        let scene = if started_late {
+            "attempt-started-at-or-after-deadline"
+        } else if in_flight {
+            "attempt-started-before-deadline-runs-full-timeout"
+        } else {
+            "idle-wait-past-deadline"
+        };
+        l.violation(
+            &format!("deadline-exceeded:{scene}"),
+            &format!("lookup completed {dur} ms after it started, configured timeout {T_MS} ms"),
+            wit,
+        );
+        l.outcome("deadline-late");
+    }
+    // (2) soundness of an Ok result
+    match res {
+        Res::Answer { srv, tcp, tag: atag, tc } => {
+            if *atag != tag {
+                l.violation("wrong-answer:question-mismatch", "the answer belongs to a different query", wit);
+            }
+            let logged = obs.log.iter().any(|e| {
+                !e.connect && e.srv == *srv && e.tcp == *tcp && e.tag == *atag && e.step.starts_with("answer") && e.end.map(|x| x <= end).unwrap_or(false)
+            });
+            if !logged {
+                l.violation("wrong-answer:not-from-a-completed-exchange", "the returned answer was not produced by any completed upstream exchange", wit);
+            }
+            if *tc {
+                l.violation("truncated-returned:answer-with-tc", "a response with TC set was returned", wit);
+            }
+        }
+        Res::OkEmpty { tc: true, .. } => {
+            // which server truncated? any UDP truncated exchange whose TCP side is healthy
+            let healthy_tcp = obs.log.iter().any(|e| {
+                !e.connect && !e.tcp && e.tag == tag && e.step.starts_with("truncated") && {
+                    let s = &obs.servers[e.srv];
+                    s.tcp.as_ref().map(|t| t.steps.iter().chain([&t.rest]).all(|x| matches!(x, Step::Answer(_)))).unwrap_or(false)
+                        && s.tcp_conn.steps.iter().chain([&s.tcp_conn.rest]).all(|x| *x == ConnStep::Ok)
+                }
+            });
+            if healthy_tcp {
+                l.violation("truncated-returned:tcp-healthy", "a truncated UDP reply was returned although TCP to that server answers", wit);
+            } else {
+                l.outcome("obs:truncated-returned-tcp-unhealthy");
+            }
+        }
+        _ => {}
+    }
+}
+
+/// Oracle for a single-caller case (families i and ii).
+fn judge_single(case: &Case, obs: &Obs, l: &mut Local) {
+    let wit = || {
+        let mut c = case.clone();
+        c.servers = obs.servers.clone();
+        let mut j = c.to_json();
+        j["observed"] = obs.to_json();
+        j
+    };
+    if obs.hung {
+        l.violation("no-completion", "a lookup did not complete within 60 s of virtual time", wit);
+        return;
+    }
+    let c = &obs.callers[0];
+    let owner = owner_id(0);
+    judge_caller(case, obs, 0, c, owner, TAG_MAIN, l, &wit);
+    let (Some(end), Some(res)) = (c.end, c.res.as_ref()) else { return };
+    let servers = &obs.servers;
+    let deadline = c.start + T_MS;
+    let definitive = is_definitive(res, servers);
+    let main_log: Vec<&Ev> = obs.log.iter().filter(|e| e.connect || (e.tag == TAG_MAIN && e.owner == owner)).collect();
+
+    // (3) a healthy server's answer is demanded when every admissible reading of the search
+    // procedure reaches a definitive response strictly within the budget
+    let must = refwalk::must_be_definitive(servers, &case.strategy, case.conc, T_MS);
+    match must {
+        Some(true) => {
+            l.outcome("walk:definitive-demanded");
+            if !definitive {
+                l.violation(
+                    &format!("healthy-answer-missed:got={}:met={}", res.class(), fault_scene(&obs.log, owner)),
+                    &format!("a healthy server was reachable within the budget but the lookup returned {}", res.class()),
+                    wit,
+                );
+            }
+        }
+        Some(false) => l.outcome("walk:not-demanded"),
+        None => {
+            l.outcome("walk:unjudged-out-of-class");
+            if let Res::Rcode(rc) = res {
+                let untried = (0..servers.len()).any(|s| !main_log.iter().any(|e| e.srv == s));
+                if untried {
+                    l.outcome(&format!("obs:{rc}-ended-search-with-untried-servers"));
+                }
+            }
+        }
+    }
+
+    // (4) an NXDOMAIN of an untrusted server does not end the search
+    if let Res::Nx { srv } = res {
+        let nx_srvs: BTreeSet<usize> = main_log.iter().filter(|e| !e.connect && e.step.starts_with("nxdomain") && e.end.is_some()).map(|e| e.srv).collect();
+        if nx_srvs.is_empty() {
+            l.violation("wrong-answer:nxdomain-not-from-an-exchange", "NXDOMAIN returned but no server said so", wit);
+        }
+        let from = srv.filter(|s| nx_srvs.contains(s));
+        let trusted = from.map(|s| servers[s].trust_nx).unwrap_or_else(|| nx_srvs.iter().any(|s| servers[*s].trust_nx));
+        let policy_changed = main_log.iter().any(|e| !e.connect && (e.step.starts_with("truncated") || e.step.starts_with("casemismatch")));
+        if !trusted && !policy_changed && end < deadline {
+            let untried: Vec<usize> = (0..servers.len()).filter(|s| !main_log.iter().any(|e| e.srv == *s)).collect();
+            if !untried.is_empty() {
+                l.violation(
+                    "untrusted-nxdomain-ended-search",
+                    &format!("NXDOMAIN of an untrusted server was returned at {} ms while server(s) {untried:?} were never asked", end - c.start),
+                    wit,
+                );
+            }
+        }
+        if !trusted {
+            l.outcome("untrusted-nx-returned-after-full-search");
+        }
+    }
+    if main_log.iter().any(|e| !e.connect && e.step.starts_with("nxdomain") && !servers[e.srv].trust_nx) && definitive {
+        l.outcome("untrusted-nx-continued");
+    }
+
+    // (5) a truncated UDP reply is retried over TCP
+    for e in main_log.iter().filter(|e| !e.connect && !e.tcp && e.step.starts_with("truncated")) {
+        let Some(tc_at) = e.end else { continue };
+        if servers[e.srv].tcp.is_none() || tc_at >= deadline || tc_at >= end && definitive {
+            continue;
+        }
+        let retried = main_log.iter().any(|x| x.srv == e.srv && x.tcp && x.start >= tc_at);
+        // the search may legitimately end first with another server's definitive response
+        // the search may legitimately end first with another server's definitive response; an
+        // ending for a reason outside the statement's fault class (SERVFAIL, REFUSED, ...) is not judged
+        let in_class_failure = matches!(res, Res::Timeout | Res::Io | Res::Busy | Res::NoConn | Res::OkEmpty { tc: true, .. } | Res::Nx { .. }) && !definitive
+            || matches!(res, Res::Other(m) if m.contains("truncated"));
+        if !retried && in_class_failure && end < deadline {
+            l.violation("truncated-not-retried-over-tcp", "after a truncated UDP reply no TCP attempt was made to that server", wit);
+        }
+        if retried && matches!(res, Res::Answer { srv, tcp: true, .. } if *srv == e.srv) {
+            l.outcome("tc-retried-over-tcp");
+        }
+    }
+    if main_log.iter().any(|e| !e.connect && e.step.starts_with("busy")) && matches!(res, Res::Answer { .. }) {
+        l.outcome("answer-after-busy");
+    }
+    if main_log.iter().any(|e| !e.connect && (e.step == "silent" || e.step.starts_with("ioerr") || e.step.starts_with("reset"))) && definitive {
+        l.outcome("answer-after-transport-fault");
+    }
+    l.outcome(&format!("result:{}", res.class()));
+
+    // follow-up on the same pool: must complete, be sound and cause a fresh exchange
+    if let Some(f) = &obs.followup {
+        judge_caller(case, obs, 99, f, FOLLOWUP_OWNER, TAG_MAIN, l, &wit);
+        if f.end.is_some() && !obs.log.iter().any(|e| !e.connect && e.owner == FOLLOWUP_OWNER) && !matches!(f.res, Some(Res::NoConn)) {
+            l.violation("stale-shared-result", "a lookup issued after the previous one completed caused no upstream exchange", wit);
+        }
+    }
+}
+
+/// Oracle for family (iii): identical concurrent callers, one different query, <= 1 cancellation.
+/// `single` is the same scenario run with the first caller (and the different-query caller) only.
+fn judge_callers(case: &Case, obs: &Obs, single: &Obs, l: &mut Local) {
+    let wit = || {
+        let mut j = case.to_json();
+        j["observed"] = obs.to_json();
+        j["single_caller_run"] = single.to_json();
+        j
+    };
+    if obs.hung {
+        // find out who hangs
+        let stranded = obs.callers.iter().enumerate().any(|(j, c)| c.end.is_none() && !c.cancelled && case.callers[j].tag == TAG_MAIN);
+        l.violation(
+            if stranded && case.callers.iter().any(|c| c.cancel.is_some()) { "waiter-stranded" } else { "no-completion" },
+            "a non-cancelled caller never completed",
+            wit,
+        );
+        return;
+    }
+    // per-caller clauses
+    for (j, c) in obs.callers.iter().enumerate() {
+        judge_caller(case, obs, j, c, owner_id(j), case.callers[j].tag, l, &wit);
+        if case.callers[j].tag == TAG_OTHER {
+            match &c.res {
+                Some(Res::Answer { tag: TAG_OTHER, .. }) => {}
+                other => l.violation(
+                    "different-query-affected",
+                    &format!("the concurrent different query did not get its own answer: {other:?}"),
+                    wit,
+                ),
+            }
+            if !obs.log.iter().any(|e| !e.connect && e.tag == TAG_OTHER && e.owner == owner_id(j)) {
+                l.violation("different-query-affected:no-own-exchange", "the different query caused no exchange of its own", wit);
+            }
+        }
+    }
+    // sharing: walk the identical callers in arrival order
+    let mut order: Vec<usize> = (0..case.callers.len()).filter(|j| case.callers[*j].tag == TAG_MAIN).collect();
+    order.sort_by_key(|j| (case.callers[*j].arrive, *j));
+    let own_exchanges = |j: usize| obs.log.iter().filter(|e| !e.connect && e.tag == TAG_MAIN && e.owner == owner_id(j)).count();
+    let single_exchanges = single.log.iter().filter(|e| !e.connect && e.tag == TAG_MAIN).count();
+    let cancel_of = |j: usize| case.callers[j].cancel.filter(|x| obs.callers[j].cancelled && *x >= case.callers[j].arrive);
+
+    // The lookup instance the next arrival may have to share: created by `owner`, registered
+    // (joinable) until `registered_until` (= the owner's completion, or its cancellation); after a
+    // cancelled owner the exchange lives on for the attached waiters until `orphan_until`.
+    struct Inst {
+        owner: usize,
+        owner_cancelled: bool,
+        registered_until: u64,
+        orphan_until: u64,
+    }
+    let mut cur: Option<Inst> = None;
+    let mut waiter_cancelled = false;
+    let mut first_instance = true;
+    for &j in &order {
+        let a = case.callers[j].arrive;
+        let c = &obs.callers[j];
+        if let Some(inst) = cur.as_mut() {
+            if a == inst.registered_until {
+                // arrival in the very instant the lookup completes / its creator is cancelled:
+                // both orders are admissible, nothing is judged for this caller
+                l.outcome("obs:arrival-ties-with-completion");
+                continue;
+            }
+            if a < inst.registered_until {
+                let o = inst.owner;
+                if own_exchanges(j) > 0 {
+                    let scene = if waiter_cancelled { "after-waiter-cancel" } else { "no-cancel" };
+                    l.violation(
+                        &format!("dedup-broken:{scene}"),
+                        &format!(
+                            "caller {j} arrived at {a} ms while the identical lookup of caller {o} was in flight and caused {} upstream exchange(s) of its own",
+                            own_exchanges(j)
+                        ),
+                        wit,
+                    );
+                } else {
+                    l.outcome("shared-with-creator");
+                }
+                if cancel_of(j).is_some() {
+                    waiter_cancelled = true;
+                } else if inst.owner_cancelled {
+                    // waiter of a cancelled creator: must complete (no-completion is judged per
+                    // caller); remember how long the orphaned exchange lives
+                    inst.orphan_until = inst.orphan_until.max(c.end.unwrap_or(u64::MAX));
+                    if c.end.is_some() {
+                        l.outcome("waiter-survived-creator-cancel");
+                    }
+                } else {
+                    let oc = &obs.callers[o];
+                    if c.res != oc.res || c.end != oc.end {
+                        l.violation(
+                            "callers-disagree",
+                            &format!("caller {j} shares the lookup of caller {o} but got {:?} at {:?} instead of {:?} at {:?}", c.res, c.end, oc.res, oc.end),
+                            wit,
+                        );
+                    }
+                }
+                continue;
+            }
+            if a <= inst.orphan_until {
+                // the creator of the still running exchange was cancelled: the statement does not
+                // say who owns it now; hickory starts a second exchange. Observed, not judged.
+                if own_exchanges(j) > 0 {
+                    l.outcome("obs:new-exchange-while-orphaned-lookup-in-flight");
+                } else {
+                    l.outcome("obs:joined-orphaned-lookup");
+                    continue;
+                }
+            }
+        }
+        // j creates a new lookup
+        let cancelled_at = cancel_of(j);
+        if own_exchanges(j) == 0 && !matches!(c.res, Some(Res::NoConn)) {
+            l.violation(
+                "stale-shared-result",
+                &format!("caller {j} arrived at {a} ms with no identical lookup in flight but caused no upstream exchange"),
+                wit,
+            );
+        }
+        if first_instance {
+            first_instance = false;
+            if cancelled_at.is_none() {
+                if own_exchanges(j) > single_exchanges {
+                    l.violation(
+                        "dedup-broken:extra-exchanges",
+                        &format!("the shared lookup caused {} exchanges, a single caller causes {}", own_exchanges(j), single_exchanges),
+                        wit,
+                    );
+                }
+                let sc = &single.callers[0];
+                if sc.res != c.res || sc.end != c.end {
+                    l.violation(
+                        "callers-disagree:creator-differs-from-single-run",
+                        &format!("with waiters attached the creator got {:?} at {:?}; alone it gets {:?} at {:?}", c.res, c.end, sc.res, sc.end),
+                        wit,
+                    );
+                }
+            }
+        }
+        cur = Some(match cancelled_at {
+            Some(x) => Inst { owner: j, owner_cancelled: true, registered_until: x, orphan_until: 0 },
+            None => Inst { owner: j, owner_cancelled: false, registered_until: c.end.unwrap_or(u64::MAX), orphan_until: 0 },
+        });
+    }
+    if let Some(f) = &obs.followup {
+        judge_caller(case, obs, 99, f, FOLLOWUP_OWNER, TAG_MAIN, l, &wit);
+        if f.end.is_some() && !obs.log.iter().any(|e| !e.connect && e.owner == FOLLOWUP_OWNER) && !matches!(f.res, Some(Res::NoConn)) {
+            l.violation("stale-shared-result:after-quiescence", "a lookup issued after all callers completed caused no upstream exchange", wit);
+        }
+    }
+}
+
+// ------------------------------------------------------------------------------------------
+// families
+
+fn behaviour_srv(b: u64, i: usize, tcp_available: bool, trust: bool, srtt: u32) -> Srv {
+    let f = fast(i, false);
+    let ft = fast(i, true);
+    let udp = match b {
+        0 => Script::constant(Step::Answer(f)),
+        1 => Script::constant(Step::NxDomain(f)),
+        2 => Script::constant(Step::Truncated(f)),
+        3 => Script::constant(Step::Silent),
+        4 => Script::constant(Step::IoErr(f)),
+        _ => Script { steps: vec![Step::Busy(0)], rest: Step::Answer(f) },
+    };
+    // over TCP a server behaves as over UDP, except that the truncating one answers in full
+    let tcp = match b {
+        0 | 2 | 5 => Script::constant(Step::Answer(ft)),
+        1 => Script::constant(Step::NxDomain(ft)),
+        3 => Script::constant(Step::Silent),
+        _ => Script::constant(Step::IoErr(ft)),
+    };
+    Srv {
+        udp,
+        tcp: Some(tcp),
+        tcp_conn: Script::constant(if tcp_available { ConnStep::Ok } else { ConnStep::Refused(ft) }),
+        trust_nx: trust,
+        srtt,
+    }
+}
+
+const BEHAVIOURS: [&str; 6] = ["answer", "nxdomain", "truncated-then-tcp-answer", "timeout", "io-error", "busy-then-answer"];
+
+/// Family (i): decode index -> list of cases (the trust flags of the NXDOMAIN servers are
+/// enumerated inside).
+fn coarse_cases(n: usize, d: &[u64]) -> Vec<Case> {
+    // d = [b_0..b_{n-1}, strategy, conc, tcp]
+    let beh = &d[..n];
+    let strat = d[n];
+    let conc = d[n + 1] as usize + 1;
+    let tcp_available = d[n + 2] == 0;
+    // strategies: 0 user, 1..=n roundrobin with r = strat-1 warm-ups, n+1 / n+2 query statistics
+    let (strategy, warmups, srtt_desc) = if strat == 0 {
+        ("user", 0, false)
+    } else if strat <= n as u64 {
+        ("roundrobin", strat as usize - 1, false)
+    } else {
+        ("querystats", 0, strat == n as u64 + 2)
+    };
+    let nx: Vec<usize> = (0..n).filter(|i| beh[*i] == 1).collect();
+    let mut out = vec![];
+    for mask in 0..(1u32 << nx.len()) {
+        let servers = (0..n)
+            .map(|i| {
+                let trust = match nx.iter().position(|x| *x == i) {
+                    Some(p) => mask & (1 << p) == 0,
+                    None => true,
+                };
+                let srtt = if srtt_desc { 10 + 3 * (n - i) as u32 } else { 10 + 3 * i as u32 };
+                behaviour_srv(beh[i], i, tcp_available, trust, srtt)
+            })
+            .collect();
+        out.push(Case::single("coarse", servers, strategy, warmups, conc));
+    }
+    out
+}
+
+fn run_single(case: &Case, l: &mut Local) -> Obs {
+    l.eval();
+    let (obs, _) = execute(case, None, &Alphabets::default());
+    judge_single(case, &obs, l);
+    obs
+}
+
+fn nontrivial_mark(case: &Case, l: &mut Local) {
+    let healthy = case.servers.iter().any(|s| s.udp.steps.is_empty() && matches!(s.udp.rest, Step::Answer(_)));
+    let faulty = case.servers.iter().any(|s| !(s.udp.steps.is_empty() && matches!(s.udp.rest, Step::Answer(_))));
+    if healthy && faulty {
+        l.nontrivial(fnv_str(&case.to_json().to_string()));
+    }
+}
+
+fn refine_alphabets(thorough: bool) -> Alphabets {
+    // index 0 (not listed) is always "the script's rest step" = answer fast
+    let mut udp = vec![
+        Step::Answer(SLOW),
+        Step::NxDomain(24),
+        Step::Truncated(24),
+        Step::Silent,
+        Step::IoErr(24),
+        Step::IoErr(SLOW),
+        Step::Reset(24),
+        Step::Busy(0),
+        Step::ServFail(24),
+        Step::Refused(24),
+        Step::NoData(24),
+        Step::CaseMismatch(24),
+    ];
+    if thorough {
+        udp.push(Step::NxDomain(SLOW));
+        udp.push(Step::Truncated(SLOW));
+        udp.push(Step::Busy(SLOW));
+    }
+    let tcp = vec![
+        Step::Answer(SLOW),
+        Step::NxDomain(28),
+        Step::Silent,
+        Step::IoErr(28),
+        Step::Reset(28),
+        Step::Busy(0),
+        Step::Truncated(28),
+        Step::ServFail(28),
+    ];
+    let conn = vec![ConnStep::Refused(28), ConnStep::Timeout(400), ConnStep::Refused(SLOW)];
+    Alphabets { udp, tcp, conn }
+}
+
+/// Static configurations under which family (ii) explores deviations.
+fn refine_configs(thorough: bool) -> Vec<Case> {
+    let mut out = vec![];
+    let ns: &[usize] = if thorough { &[1, 2, 3, 4] } else { &[1, 2, 3] };
+    for &n in ns {
+        for conc in [1usize, 2] {
+            if conc > n {
+                continue;
+            }
+            for (strategy, warmups) in [("user", 0usize), ("roundrobin", 1), ("querystats", 0)] {
+                if n == 1 && strategy != "user" {
+                    continue;
+                }
+                // tcp mode: 0 configured, 1 not configured; trust: all / none; busy runs: a
+                // server that is busy k times before following its script
+                for tcp_mode in [0, 1] {
+                    for trust in [true, false] {
+                        for busy_run in [0usize, 2, 5] {
+                            if busy_run > 0 && (tcp_mode == 1 || !trust || strategy != "user") {
+                                continue;
+                            }
+                            let servers = (0..n)
+                                .map(|i| Srv {
+                                    udp: Script { steps: if i == 0 { vec![Step::Busy(0); busy_run] } else { vec![] }, rest: Step::Answer(fast(i, false)) },
+                                    tcp: if tcp_mode == 0 { Some(Script::constant(Step::Answer(fast(i, true)))) } else { None },
+                                    tcp_conn: Script::constant(ConnStep::Ok),
+                                    trust_nx: trust,
+                                    srtt: 10 + 3 * i as u32,
+                                })
+                                .collect();
+                            let mut c = Case::single("refine", servers, strategy, warmups, conc);
+                            c.followup = true;
+                            out.push(c);
+                        }
+                    }
+                }
+            }
+        }
+    }
+    out
+}
+
+/// Family (iii) base scenarios: behaviour assignments to 1..=2 servers.
+fn caller_scenarios(thorough: bool) -> Vec<(Vec<Srv>, usize)> {
+    let mut out = vec![];
+    let mk = |beh: &[u64]| -> Vec<Srv> {
+        beh.iter()
+            .enumerate()
+            .map(|(i, b)| {
+                let mut s = behaviour_srv(*b % 10, i, true, *b < 10, 10 + 3 * i as u32);
+                if *b % 10 == 4 {
+                    // an I/O error that takes a while: the lookup is mid-flight for longer
+                    s.udp = Script::constant(Step::IoErr(SLOW / 2));
+                }
+                s
+            })
+            .collect()
+    };
+    // one server: every behaviour; two servers: (faulty | answering, answering | faulty)
+    for b in 0..6u64 {
+        out.push((mk(&[b]), 1));
+    }
+    let pairs: Vec<[u64; 2]> = if thorough {
+        (0..6u64).flat_map(|a| (0..6u64).map(move |b| [a, b])).collect()
+    } else {
+        vec![[4, 0], [2, 0], [5, 3], [11, 0], [3, 0], [4, 4], [0, 3]]
+    };
+    for p in pairs {
+        out.push((mk(&p), 1));
+        if thorough || p == [3, 0] || p == [4, 0] {
+            out.push((mk(&p), 2));
+        }
+    }
+    out
+}
+
+/// All caller plans for a scenario: k identical callers, one different query, arrivals and at most
+/// one cancellation at instants derived from the single-caller run's event instants.
+fn caller_plans(single: &Obs, k: usize, thorough: bool) -> Vec<Vec<CallerPlan>> {
+    let done = single.callers[0].end.unwrap_or(T_MS);
+    // Upstream events of the first lookup happen at multiples of 4 ms (all scripted latencies and
+    // the pool's back-off are). Arrivals are placed 1 ms before/after every event, cancellations
+    // 2 ms before/after, so that no action ties with an event of the first lookup or with each
+    // other.
+    let mut events: BTreeSet<u64> = BTreeSet::new();
+    events.insert(0);
+    for e in single.log.iter().filter(|e| e.connect || e.tag == TAG_MAIN) {
+        for t in [Some(e.start), e.end].into_iter().flatten() {
+            if t <= done {
+                events.insert(t);
+            }
+        }
+    }
+    let around = |d: u64| -> Vec<u64> {
+        let mut v: BTreeSet<u64> = BTreeSet::new();
+        for e in &events {
+            if *e >= d + 1 && e - d < done {
+                v.insert(e - d);
+            }
+            if e + d < done {
+                v.insert(e + d);
+            }
+        }
+        v.into_iter().collect()
+    };
+    let thin = |v: Vec<u64>| -> Vec<u64> {
+        if thorough || v.len() <= 5 {
+            return v;
+        }
+        // quick tier: the first two, the middle one and the last two instants
+        let n = v.len();
+        let mut w = vec![v[0], v[1], v[n / 2], v[n - 2], v[n - 1]];
+        w.dedup();
+        w
+    };
+    let mut arrivals: Vec<u64> = vec![0];
+    arrivals.extend(thin(around(1)));
+    arrivals.push(done + 1);
+    let mut cancels: Vec<u64> = thin(around(2));
+    cancels.push(done + 2);
+
+    let mut plans = vec![];
+    // arrival vectors for callers 1..k (caller 0 arrives at 0), non-decreasing to drop symmetric
+    // duplicates
+    let mut arr_vecs: Vec<Vec<u64>> = vec![vec![]];
+    for _ in 1..k {
+        let mut next = vec![];
+        for v in &arr_vecs {
+            for a in &arrivals {
+                if v.last().map(|x| a >= x).unwrap_or(true) {
+                    let mut w = v.clone();
+                    w.push(*a);
+                    next.push(w);
+                }
+            }
+        }
+        arr_vecs = next;
+    }
+    for av in arr_vecs {
+        let mut base: Vec<CallerPlan> = vec![CallerPlan { tag: TAG_MAIN, arrive: 0, cancel: None }];
+        for a in &av {
+            base.push(CallerPlan { tag: TAG_MAIN, arrive: *a, cancel: None });
+        }
+        base.push(CallerPlan { tag: TAG_OTHER, arrive: 0, cancel: None });
+        plans.push(base.clone());
+        for target in 0..k {
+            for x in &cancels {
+                if *x > base[target].arrive {
+                    let mut p = base.clone();
+                    p[target].cancel = Some(*x);
+                    plans.push(p);
+                }
+            }
+        }
+    }
+    plans
+}
+
+fn main() {
+    let ctx = Ctx::from_args("C18", "fault_enumeration");
+    let thorough = !ctx.quick();
+
+    if let Some((_key, case)) = ctx.replay_case() {
+        let case = Case::from_json(&case);
+        ctx.with_local(|l| {
+            if case.family == "callers" {
+                let mut sc = case.clone();
+                sc.callers = vec![case.callers[0].clone(), case.callers.last().unwrap().clone()];
+                sc.callers[0].cancel = None;
+                let (single, _) = execute(&sc, None, &Alphabets::default());
+                l.eval();
+                let (obs, _) = execute(&case, None, &Alphabets::default());
+                judge_callers(&case, &obs, &single, l);
+            } else {
+                run_single(&case, l);
+            }
+        });
+        ctx.finish(false);
+    }
+
+    ctx.set_rule(
+        "(i) every assignment of {answer, NXDOMAIN, truncated-then-TCP-answer, timeout, io-error, busy-then-answer} to n=1..4 servers x \
+         {UserProvidedOrder, RoundRobin after 0..n-1 earlier lookups, QueryStatistics with ascending/descending pinned SRTT} x \
+         num_concurrent_reqs {1,2,3} x TCP {available, connection refused} x trust_negative_responses of every NXDOMAIN server; \
+         (ii) every schedule with <= d deviations (d=2 quick, 3 thorough) from 'every exchange is answered fast' over the alphabet \
+         {answer 0.6T, NXDOMAIN, truncated, silent(>T), io-error fast/0.6T, reset, busy, SERVFAIL, REFUSED, NODATA, case-mismatch; TCP connect refused/timeout} \
+         under static configurations n x conc x strategy x TCP configured/not x trust x busy runs {0,2,5}, each followed by a second lookup on the same pool; \
+         (iii) k in {2,3} identical callers + one different query, arrival and at most one cancellation (creator or waiter) at the instants \
+         just before/after every upstream event of the scenario, plus arrival just after completion and a follow-up after quiescence. \
+         timeout = 1000 ms virtual. Oracle: completion - start <= timeout; result sound (answer produced by a completed exchange, never TC when TCP is healthy); \
+         a definitive result whenever every admissible reading of the documented search procedure (reference walk) reaches one strictly within the budget; \
+         untrusted NXDOMAIN never ends the search; truncated UDP is followed by a TCP attempt; overlapping identical callers cause no exchange of their own and get the creator's result. \
+         Non-trivial = distinct case with at least one faulty and one healthy server.",
+    );
+    ctx.assume("the scripted ConnectionProvider stands for the transports: a silent server surfaces as NetError::Timeout after options.timeout, as the real UDP/TCP streams do");
+    ctx.assume("busy back-off schedule (20 ms doubling, give up at >= 300 ms) and batch-wise search are taken from the pool's documentation as the meaning of 'the time budget allows'");
+    ctx.assume("tokio's paused clock + hook clock: all time the pool reads is virtual; DecayingSrtt's real-clock reads only affect the ordering of later lookups (not judged)");
+
+    let alph_none = Alphabets::default();
+
+    // ---------------- (i) coarse product
+    let mut total_space = 0u64;
+    for n in 1..=4usize {
+        let mut rad: Vec<u64> = vec![6; n];
+        rad.push(n as u64 + 3); // strategies
+        rad.push(3); // conc
+        rad.push(2); // tcp
+        let od = Odometer::new(&rad);
+        let space = od.space();
+        total_space += space;
+        ctx.par_run(space, 16, |i, l| {
+            let d = od.get(i);
+            for case in coarse_cases(n, &d) {
+                let obs = run_single(&case, l);
+                nontrivial_mark(&case, l);
+                // determinism self-test on a slice
+                if i % 8 == 0 && i < 8 * 400 {
+                    let (again, _) = execute(&case, None, &alph_none);
+                    if again.digest() != obs.digest() {
+                        ctx.machinery_failure(&format!("nondeterminism: case {} gave two different observations", case.to_json()));
+                    }
+                    l.outcome("selftest:replayed-identically");
+                }
+                if i % 20011 == 0 {
+                    l.sample(json!({"family": "coarse", "behaviours": d[..n].iter().map(|b| BEHAVIOURS[*b as usize]).collect::<Vec<_>>(), "strategy": case.strategy, "warmups": case.warmups, "conc": case.conc, "tcp_available": d[n + 2] == 0,
+                        "result": obs.callers[0].res.as_ref().map(|r| r.class()), "elapsed_ms": obs.callers[0].end}));
+                }
+            }
+        });
+    }
+    ctx.set("coarse_assignments_x_config", json!(total_space));
+    ctx.set("coarse_runs", json!(ctx.evals()));
+
+    // ---------------- (ii) deviation-bounded refinement
+    let bound = if thorough { 3 } else { 2 };
+    let alph = refine_alphabets(thorough);
+    let configs = refine_configs(thorough);
+    let mut sched_runs = 0u64;
+    let mut max_points = 0usize;
+    for cfg in &configs {
+        let st = vcore::explore_deviations(&ctx, bound, |ch, l| {
+            l.eval();
+            let (obs, ch2) = execute(cfg, Some(ch.clone()), &alph);
+            if let Some(c2) = ch2 {
+                *ch = c2;
+            }
+            judge_single(cfg, &obs, l);
+            let mut realized = cfg.clone();
+            realized.servers = obs.servers.clone();
+            nontrivial_mark(&realized, l);
+            if ch.deviations() == bound && ch.choices().iter().sum::<u32>() % 97 == 0 {
+                l.sample(json!({"family": "refine", "choices": ch.choices(), "n": cfg.servers.len(), "conc": cfg.conc, "strategy": cfg.strategy,
+                    "result": obs.callers[0].res.as_ref().map(|r| r.class()), "elapsed_ms": obs.callers[0].end}));
+            }
+        });
+        sched_runs += st.executions;
+        max_points = max_points.max(st.max_points);
+        if ctx.out_of_time() {
+            break;
+        }
+    }
+    ctx.set("refine_configs", json!(configs.len()));
+    ctx.set("refine_schedules", json!(sched_runs));
+    ctx.set("refine_deviation_bound", json!(bound));
+    ctx.set("refine_max_decision_points", json!(max_points));
+
+    // ---------------- (iii) callers
+    let scenarios = caller_scenarios(thorough);
+    let mut jobs: Vec<(Case, Arc<Obs>)> = vec![];
+    for (servers, conc) in &scenarios {
+        let mut sc = Case::single("callers", servers.clone(), "user", 0, *conc);
+        sc.callers.push(CallerPlan { tag: TAG_OTHER, arrive: 0, cancel: None });
+        let (single, _) = execute(&sc, None, &alph_none);
+        let single = Arc::new(single);
+        for k in [2usize, 3] {
+            for plan in caller_plans(&single, k, thorough) {
+                let mut c = sc.clone();
+                c.callers = plan;
+                c.followup = true;
+                jobs.push((c, single.clone()));
+            }
+        }
+    }
+    ctx.set("caller_scenarios", json!(scenarios.len()));
+    ctx.set("caller_plans", json!(jobs.len()));
+    ctx.par_run(jobs.len() as u64, 8, |i, l| {
+        let (case, single) = &jobs[i as usize];
+        l.eval();
+        let (obs, _) = execute(case, None, &alph_none);
+        judge_callers(case, &obs, single, l);
+        l.nontrivial(fnv_str(&case.to_json().to_string()));
+        if i % 8 == 0 && i < 8 * 300 {
+            let (again, _) = execute(case, None, &alph_none);
+            if again.digest() != obs.digest() {
+                ctx.machinery_failure(&format!("nondeterminism: caller plan {} gave two different observations", case.to_json()));
+            }
+            l.outcome("selftest:replayed-identically");
+        }
+        if i % 5003 == 0 {
+            l.sample(json!({"family": "callers", "callers": case.to_json()["callers"], "results": obs.callers.iter().map(|c| c.res.as_ref().map(|r| r.class())).collect::<Vec<_>>() }));
+        }
+    });
+
+    // ---------------- vacuity
+    for class in [
+        "answer-after-transport-fault",
+        "tc-retried-over-tcp",
+        "untrusted-nx-continued",
+        "answer-after-busy",
+        "walk:definitive-demanded",
+        "walk:not-demanded",
+        "shared-with-creator",
+        "waiter-survived-creator-cancel",
+        "selftest:replayed-identically",
+    ] {
+        if ctx.outcome_count(class) == 0 {
+            ctx.machinery_failure(&format!("vacuous run: outcome class '{class}' was never exercised"));
+        }
+    }
+    ctx.finish(true);
+}
